@@ -83,20 +83,25 @@ func compositions(n, minParts int) [][]int {
 var shapeMemo = map[[2]int][]*shape{}
 
 // enumShapes lists every condition skeleton with exactly n leaves.
-// parenLeaves: also wrap single leaves in redundant parentheses.
-func enumShapes(n int, parenLeaves bool) []*shape {
-	key := [2]int{n, 0}
-	if parenLeaves {
-		key[1] = 1
-	}
+// leafForms: 0 = bare leaves; 1 = also single leaves in redundant parentheses;
+// 2 = also negated groups around one leaf, around a negation and around
+// redundant parentheses (!(l), !(!(l)), !((l))).
+func enumShapes(n int, leafForms int) []*shape {
+	key := [2]int{n, leafForms}
 	if r, ok := shapeMemo[key]; ok {
 		return r
 	}
 	var out []*shape
 	if n == 1 {
-		out = append(out, &shape{kind: 'l'})
-		if parenLeaves {
-			out = append(out, &shape{kind: 'p', kids: []*shape{{kind: 'l'}}})
+		leaf := func() *shape { return &shape{kind: 'l'} }
+		out = append(out, leaf())
+		if leafForms >= 1 {
+			out = append(out, &shape{kind: 'p', kids: []*shape{leaf()}})
+		}
+		if leafForms >= 2 {
+			out = append(out, &shape{kind: 'n', kids: []*shape{leaf()}},
+				&shape{kind: 'n', kids: []*shape{{kind: 'n', kids: []*shape{leaf()}}}},
+				&shape{kind: 'n', kids: []*shape{{kind: 'p', kids: []*shape{leaf()}}}})
 		}
 		shapeMemo[key] = out
 		return out
@@ -105,7 +110,7 @@ func enumShapes(n int, parenLeaves bool) []*shape {
 		for _, comp := range compositions(n, 2) {
 			lists := make([][]*shape, len(comp))
 			for i, m := range comp {
-				lists[i] = enumShapes(m, parenLeaves)
+				lists[i] = enumShapes(m, leafForms)
 			}
 			var rec func(i int, cur []*shape)
 			rec = func(i int, cur []*shape) {
@@ -352,7 +357,7 @@ func runC02(ctx *h.Ctx) int {
 	}
 	var all []*shape
 	for n := 1; n <= maxN; n++ {
-		all = append(all, enumShapes(n, n <= 3)...)
+		all = append(all, enumShapes(n, map[int]int{1: 2, 2: 2, 3: 1, 4: 0}[n])...)
 	}
 	ctx.RunCases("all-skeletons", len(all)*reps, func(k *h.Case) {
 		sh := all[k.Index%len(all)]
@@ -364,7 +369,7 @@ func runC02(ctx *h.Ctx) int {
 			k.Sample("skeleton", spec.Source(prog))
 		}
 	})
-	ctx.Exhaustive("condition skeletons (and/or n-ary trees, negated groups, redundant parentheses around leaves for n<=3)", int64(len(all)),
+	ctx.Exhaustive("condition skeletons (and/or n-ary trees, negated groups, redundant parentheses around leaves for n<=3, negated groups around a single leaf / a negation / redundant parentheses for n<=2)", int64(len(all)),
 		fmt.Sprintf("every skeleton with 1..%d leaves, each with %d random leaf-form assignments and the complete truth table", maxN, reps))
 	rejectGuard(ctx, 0.05)
 	return ctx.Finish(
